@@ -102,6 +102,89 @@ theorem single_bad_key_detected {F : Type*} [Field F] {G : Type*} [AddCommGroup 
   · exact (mul_ne_zero (lam_ne_zero s v hv h0 j hj) hδ) h
   · exact hg h
 
+/-! ## fewer than `t` shares -/
+
+/-- **Fewer than `t` shares are consistent with every secret**: for every set of fewer than `t` non-zero evaluation
+points, every dealt polynomial `f` of degree `< t` and every candidate secret `c` there is a polynomial of degree `< t`
+with exactly the same shares at those points and value `c` at 0 (`f + a·∏(X − vᵢ)`). -/
+theorem fewer_than_t_any_secret {F : Type*} [Field F] {ι : Type*} [DecidableEq ι] (s : Finset ι) (v : ι → F)
+    (h0 : ∀ i ∈ s, v i ≠ 0) (t : ℕ) (hs : s.card < t) (f : F[X]) (hf : f.degree < t) (c : F) :
+    ∃ f' : F[X], f'.degree < t ∧ f'.eval 0 = c ∧ ∀ i ∈ s, f'.eval (v i) = f.eval (v i) := by
+  have hP0 : (∏ i ∈ s, (X - C (v i))).eval 0 ≠ 0 := by
+    rw [eval_prod]
+    apply Finset.prod_ne_zero_iff.mpr
+    intro i hi
+    simpa using h0 i hi
+  have hPdeg : (∏ i ∈ s, (X - C (v i))).degree ≤ (s.card : WithBot ℕ) := by
+    apply degree_le_of_natDegree_le
+    rw [natDegree_finsetProd_X_sub_C_eq_card]
+  refine ⟨f + C ((c - f.eval 0) / (∏ i ∈ s, (X - C (v i))).eval 0) * ∏ i ∈ s, (X - C (v i)), ?_, ?_, ?_⟩
+  · apply lt_of_le_of_lt (degree_add_le _ _)
+    apply max_lt hf
+    refine lt_of_le_of_lt ?_ (show ((s.card : ℕ) : WithBot ℕ) < t by exact_mod_cast hs)
+    calc _ ≤ (C ((c - f.eval 0) / (∏ i ∈ s, (X - C (v i))).eval 0)).degree + (∏ i ∈ s, (X - C (v i))).degree :=
+          degree_mul_le _ _
+      _ ≤ 0 + (s.card : WithBot ℕ) := add_le_add degree_C_le hPdeg
+      _ = s.card := zero_add _
+  · simp only [eval_add, eval_mul, eval_C]
+    rw [div_mul_cancel₀ _ hP0]; ring
+  · intro i hi
+    have hz : (∏ j ∈ s, (X - C (v j))).eval (v i) = 0 := by
+      rw [eval_prod]; exact Finset.prod_eq_zero hi (by simp)
+    simp only [eval_add, eval_mul, hz, mul_zero, add_zero]
+
+/-- hence **no way of combining fewer than `t` shares** (any function of the shares at those points — in particular the
+library's Lagrange combination) **yields the secret of every dealt polynomial**. -/
+theorem fewer_than_t_not_determined {F : Type*} [Field F] {ι : Type*} [DecidableEq ι] (s : Finset ι) (v : ι → F)
+    (h0 : ∀ i ∈ s, v i ≠ 0) (t : ℕ) (hs : s.card < t)
+    (comb : (ι → F) → F) (hcomb : ∀ y y' : ι → F, (∀ i ∈ s, y i = y' i) → comb y = comb y') :
+    ∃ f : F[X], f.degree < t ∧ comb (fun i => f.eval (v i)) ≠ f.eval 0 := by
+  have ht : (0 : F[X]).degree < (t : WithBot ℕ) := by simp [degree_zero]
+  by_cases h : comb (fun i => (0 : F[X]).eval (v i)) = (0 : F[X]).eval 0
+  · obtain ⟨f', hd, hz, hag⟩ := fewer_than_t_any_secret s v h0 t hs 0 ht 1
+    refine ⟨f', hd, ?_⟩
+    rw [hcomb (fun i => f'.eval (v i)) (fun i => (0 : F[X]).eval (v i)) hag, h, hz]
+    simp
+  · exact ⟨0, ht, h⟩
+
+/-- **`t − 1` shares never give the secret under the library's own combination**: for a dealt polynomial of degree
+exactly `|S|` (threshold `t = |S| + 1`, leading coefficient non-zero — all but a fraction `1/p` of what `SSS.Gen` deals),
+the Lagrange combination of its shares at `S` differs from the secret: it is `f(0) − lc(f)·∏(−vᵢ)`. So a signature
+aggregated from `t − 1` shares is never the signature under the threshold key (`Props/C09.bls_verify_iff`). -/
+theorem t_minus_one_shares_miss {F : Type*} [Field F] {ι : Type*} [DecidableEq ι] (s : Finset ι) (v : ι → F)
+    (hv : Set.InjOn v s) (h0 : ∀ i ∈ s, v i ≠ 0) (f : F[X]) (hf : f.degree = s.card) :
+    ∑ i ∈ s, f.eval (v i) * lam s v i ≠ f.eval 0 := by
+  have hf0 : f ≠ 0 := by
+    intro e; rw [e, degree_zero] at hf; exact WithBot.bot_ne_natCast _ hf
+  have hlc : f.leadingCoeff ≠ 0 := leadingCoeff_ne_zero.mpr hf0
+  have hPm : (∏ i ∈ s, (X - C (v i))).Monic := monic_prod_of_monic _ _ (fun i _ => monic_X_sub_C (v i))
+  have hPd : (∏ i ∈ s, (X - C (v i))).degree = ((s.card : ℕ) : WithBot ℕ) := by
+    rw [degree_eq_natDegree hPm.ne_zero, natDegree_finsetProd_X_sub_C_eq_card]
+  have hP0 : (∏ i ∈ s, (X - C (v i))).eval 0 ≠ 0 := by
+    rw [eval_prod]
+    apply Finset.prod_ne_zero_iff.mpr
+    intro i hi
+    simpa using h0 i hi
+  have hQd : (C f.leadingCoeff * ∏ i ∈ s, (X - C (v i))).degree = ((s.card : ℕ) : WithBot ℕ) := by
+    rw [degree_C_mul hlc, hPd]
+  have hQl : (C f.leadingCoeff * ∏ i ∈ s, (X - C (v i))).leadingCoeff = f.leadingCoeff := by
+    rw [leadingCoeff_mul, leadingCoeff_C, hPm.leadingCoeff, mul_one]
+  have hg : (f - C f.leadingCoeff * ∏ i ∈ s, (X - C (v i))).degree < ((s.card : ℕ) : WithBot ℕ) := by
+    have := degree_sub_lt_left (hf.trans hQd.symm) hf0 hQl.symm
+    rwa [hf] at this
+  have hag : ∀ i ∈ s, (f - C f.leadingCoeff * ∏ j ∈ s, (X - C (v j))).eval (v i) = f.eval (v i) := by
+    intro i hi
+    have hz : (∏ j ∈ s, (X - C (v j))).eval (v i) = 0 := by
+      rw [eval_prod]; exact Finset.prod_eq_zero hi (by simp)
+    simp only [eval_sub, eval_mul, hz, mul_zero, sub_zero]
+  have hr := reconstruct_eq s v hv _ hg
+  rw [Finset.sum_congr rfl (fun i hi => by rw [hag i hi])] at hr
+  rw [hr]
+  simp only [eval_sub, eval_mul, eval_C]
+  intro e
+  have : f.leadingCoeff * (∏ i ∈ s, (X - C (v i))).eval 0 = 0 := by linear_combination -e
+  exact (mul_ne_zero hlc hP0) this
+
 /-! ## the executable model (what the driver runs against `sss.go`) -/
 
 /-- the executable `lagrangeCoefficient`, whenever it does not panic, is the Lagrange coefficient -/
